@@ -47,6 +47,9 @@ pub struct NCase {
     /// 0 => 2, 1 => 4, 2 => 16
     pub nsel: u8,
     pub buf_len: u16,
+    /// receive buffers larger than 64 KiB (buf_len + 65536)
+    #[serde(default)]
+    pub big: bool,
     pub ops: Vec<NOp>,
 }
 
@@ -239,7 +242,7 @@ impl WithT for Run<'_> {
     fn call<T: Transport + 'static>(self, t: T) -> Self::Out {
         let c = self.c;
         // (the buffered driver rounds the length down to a multiple of 8, which must still be >= 1526)
-        let buf_len = (c.buf_len as usize).clamp(if c.buffered { 1528 } else { 1526 }, 65535);
+        let buf_len = (c.buf_len as usize).clamp(if c.buffered { 1528 } else { 1526 }, 65535) + if c.big { 65536 } else { 0 };
         let d = match guard(|| mk(t, c.buffered, c.nsel, buf_len)) {
             Caught::Ok(Ok(d)) => d,
             Caught::Ok(Err(e)) => return Err(format!("driver construction failed: {:?}", e)),
@@ -688,8 +691,9 @@ pub fn strategy() -> impl Strategy<Value = NCase> {
         0u8..3,
         prop_oneof![Just(1526u16), Just(2048u16), 1526u16..=4096, Just(65535u16)],
         prop::collection::vec(op(), 0..60),
+        prop::bool::weighted(0.06),
     )
-        .prop_map(|(kind, offered, policy, buffered, nsel, buf_len, ops)| NCase { kind, offered, policy, buffered, nsel, buf_len, ops })
+        .prop_map(|(kind, offered, policy, buffered, nsel, buf_len, ops, big)| NCase { kind, offered, policy, buffered, nsel, buf_len, ops, big })
 }
 
 pub fn replay(_e: &str, case: &serde_json::Value) -> Result<(), String> {
